@@ -78,6 +78,7 @@ type Env struct {
 // World is one ElysApp over a MemDB driven only through ABCI (+ gov-authority handlers between
 // blocks).
 type World struct {
+	ServeFirst bool // simulate + CheckTx every transaction before the block that carries it (C19)
 	App     *elysapp.ElysApp
 	DB      *dbm.MemDB
 	Env     Env
@@ -313,6 +314,17 @@ func (w *World) RunBlock(tm int64, txs [][]byte) *BlockResult {
 		panic("RunBlock on poisoned world")
 	}
 	h := w.App.LastBlockHeight() + 1
+	if w.ServeFirst {
+		// what every RPC-serving node does with a transaction before it is ever in a block: simulate it (gas
+		// estimate) and admit it to the mempool. Neither may change what the node computes afterwards.
+		for _, tx := range txs {
+			func() {
+				defer func() { recover() }()
+				_, _, _ = w.App.Simulate(tx)
+				_, _ = w.App.CheckTx(&abci.RequestCheckTx{Tx: tx, Type: abci.CheckTxType_New})
+			}()
+		}
+	}
 	type out struct {
 		res *abci.ResponseFinalizeBlock
 		err string
